@@ -43,9 +43,19 @@ package gmtls
 //@   (requires args (and (not (isnil config)) (not (isnil cert)) (not (isnil ckx)))))
 //@ (func "(*ecdheKeyAgreementGM).processServerKeyExchange" sweep
 //@   (requires args (and (not (isnil config)) (not (isnil clientHello)) (not (isnil serverHello)) (not (isnil cert)) (not (isnil skx)))))
-//@ (func "(*eccKeyAgreementGM).processServerKeyExchange" sweep
+// (C08) it accepts a ServerKeyExchange only after (*sm2.PublicKey).Verify accepted the signature carried in the message
+// (the bytes after the two length bytes), over the digest input built from the two randoms and the encryption
+// certificate, under the public point of the signing certificate
+//@ (func "(*eccKeyAgreementGM).processServerKeyExchange" sweep split-returns
 //@   (requires args (and (not (isnil config)) (not (isnil clientHello)) (not (isnil serverHello)) (not (isnil cert)) (not (isnil skx))
-//@                       (not (isnil (field ka encipherCert))))))
+//@                       (not (isnil (field ka encipherCert)))))
+//@   (ghost-havoc sm2.vok sm2.vmsg sm2.vsig sm2.vx sm2.vy)
+//@   (ensures proof (=> (isnil result) (and (= (ghost sm2.vok) #x01) (= (ghost sm2.vsig) (old (obj (field skx key)))))))
+//@   (ensures-internal input (=> (isnil result) (and (= (ghost sm2.vmsg) (obj digest))
+//@                              (= (ghost sm2.vx) (old (obj (field pubKey X)))) (= (ghost sm2.vy) (old (obj (field pubKey Y))))))))
+// the signed input is assembled in memory of its own; nothing the caller holds is written
+//@ (func "(*eccKeyAgreementGM).hashForServerKeyExchange" sweep
+//@   (modifies))
 //@ (func "(*ecdheKeyAgreement).processClientKeyExchange" sweep
 //@   (requires args (and (not (isnil config)) (not (isnil cert)) (not (isnil ckx)))))
 //@ (func "(*ecdheKeyAgreement).processServerKeyExchange" sweep
@@ -211,3 +221,43 @@ package gmtls
 //@ (func "(*serverHandshakeState).setCipherSuite" autoloops
 //@   (requires tables (suitesOK))
 //@   (modifies (field hs suite)))
+
+// (C08) the Finished check: readFinished returns nil only after a constant-time comparison returned equal during the call
+// (the peer's verify_data against the value computed from this side's transcript and master secret)
+//@ (func "(*clientHandshakeStateGM).readFinished" sweep split-returns
+//@   (requires nn (and (not (isnil hs)) (not (isnil (field hs c)))))
+//@   (ghost-havoc ctc.last ctc.eqs)
+//@   (ensures compared (=> (isnil result) (bvugt (ghost ctc.eqs) (old (ghost ctc.eqs))))))
+//@ (func "(*serverHandshakeStateGM).readFinished" sweep split-returns
+//@   (requires nn (and (not (isnil hs)) (not (isnil (field hs c))) (not (isnil (field hs hello)))))
+//@   (ghost-havoc ctc.last ctc.eqs)
+//@   (ensures compared (=> (isnil result) (bvugt (ghost ctc.eqs) (old (ghost ctc.eqs))))))
+//@ (func "(*clientHandshakeState).readFinished" sweep split-returns
+//@   (requires nn (and (not (isnil hs)) (not (isnil (field hs c)))))
+//@   (ghost-havoc ctc.last ctc.eqs)
+//@   (ensures compared (=> (isnil result) (bvugt (ghost ctc.eqs) (old (ghost ctc.eqs))))))
+//@ (func "(*serverHandshakeState).readFinished" sweep split-returns
+//@   (requires nn (and (not (isnil hs)) (not (isnil (field hs c))) (not (isnil (field hs clientHello)))))
+//@   (ghost-havoc ctc.last ctc.eqs)
+//@   (ensures compared (=> (isnil result) (bvugt (ghost ctc.eqs) (old (ghost ctc.eqs))))))
+
+// (C08) a server that verifies client certificates accepts a non-empty client chain only after x509 chain verification
+// accepted its first certificate (x509.okverifies counts accepted verifications; 3 = VerifyClientCertIfGiven)
+//@ (func "(*serverHandshakeStateGM).processCertsFromClient" sweep split-returns
+//@   (requires nn (and (not (isnil hs)) (not (isnil (field hs c))) (not (isnil (field (field hs c) config)))))
+//@   (requires sep (distinct (obj hs) (obj (field hs c)) (obj (field (field hs c) config))))
+//@   (loop 1 (invariant any true))
+//@   (loop 2 (invariant any true))
+//@   (ghost-havoc x509.okverifies host.ok host.cert sig.ok sig.key sig.tbs sig.sig)
+//@   (ensures verified (=> (and (isnil result.1) (bvsgt (len certificates) 0)
+//@                             (bvsge (old (field (field (field hs c) config) ClientAuth)) 3))
+//@                        (bvugt (ghost x509.okverifies) (old (ghost x509.okverifies))))))
+//@ (func "(*serverHandshakeState).processCertsFromClient" sweep split-returns
+//@   (requires nn (and (not (isnil hs)) (not (isnil (field hs c))) (not (isnil (field (field hs c) config)))))
+//@   (requires sep (distinct (obj hs) (obj (field hs c)) (obj (field (field hs c) config))))
+//@   (loop 1 (invariant any true))
+//@   (loop 2 (invariant any true))
+//@   (ghost-havoc x509.okverifies host.ok host.cert sig.ok sig.key sig.tbs sig.sig)
+//@   (ensures verified (=> (and (isnil result.1) (bvsgt (len certificates) 0)
+//@                             (bvsge (old (field (field (field hs c) config) ClientAuth)) 3))
+//@                        (bvugt (ghost x509.okverifies) (old (ghost x509.okverifies))))))
